@@ -38,6 +38,7 @@ def docs_universe():
         {"a": [1, True, 1.0, [1], [True], {"x": 0}, {"x": False}]}, {"a": {"b": {"c": [0, {"d": 1}]}}, "e": []},
         {"01": 1, "0": [0]}, [[[]]], {"a": 1, "b": 2, "c": 3}, 5, None, True, {"+1": 1, "-1": 2},
         {"n": {"a": None}, "m": [None, {"x": None, "y": 0}], "z": None},
+        {"a": {"k": 1}, "ab": {"x": 2}, "1": "x", "10": {"y": 0}, "user": {"id": 1}, "users": {}},     # names that are string prefixes of a sibling's name
     ]
     return ds
 
@@ -149,6 +150,12 @@ def gen(ctx):
                     ops.pop()
         if ops:
             cases.append({"doc": doc, "ops": ops})
+    # moves / copies between members one of whose names is a string prefix (not a token prefix) of the other's
+    pd = {"a": {"k": 1}, "ab": {"x": 2}, "1": "x", "10": {"y": 0}, "user": {"id": 1}, "users": {}}
+    for frm, to in [("/a", "/ab/x"), ("/a", "/ab/new"), ("/1", "/10/y"), ("/1", "/10/z"), ("/user", "/users/primary"), ("/ab", "/a/k"), ("/a", "/a/k"), ("/a/k", "/a"),
+                    ("/users", "/user/id"), ("/10", "/1"), ("/a", "/abc"), ("/ab/x", "/a/x")]:
+        for op in ("move", "copy"):
+            cases.append({"doc": copy.deepcopy(pd), "ops": [{"op": op, "from": frm, "path": to}]})
     # the root replaced by a scalar (in particular by strings that look like JSON text), then every kind of operation
     for first in ("replace", "add"):
         for v in ["[1", "[1,2]", "{\"a\": 1}", "abc", "", "1", "null", 5, None, True]:
